@@ -123,19 +123,30 @@ Inductive copyop := Pickle | Deepcopy | Clone (m : option cmode).
 (* effective mode of copy_traits for one trait (1599-1611) *)
 Definition effective (op : copyop) (d : tdef) : cmode :=
   let arg := match op with Pickle => Some CDeep | Deepcopy => None | Clone m => m end in
-  match td_copy d with
-  | Some CShallow => CShallow
-  | Some CRef => CRef
-  | Some CDeep => CDeep
-  | None => match arg with Some CDeep => CDeep | Some CShallow => CShallow | _ => CRef end
+  match op with
+  | Pickle => CDeep                       (* serialisation: the metadata is not consulted *)
+  | _ =>
+    match td_copy d with
+    | Some CShallow => CShallow
+    | Some CRef => CRef
+    | Some CDeep => CDeep
+    | None => match arg with Some CDeep => CDeep | Some CShallow => CShallow | _ => CRef end
+    end
   end.
 
 (* copies the traits of `c` in order into the new object `o` (trait_set / copy_traits loop) *)
+(* clone_traits 1664-1668 + copy_traits 1575-1580: when copyable_trait_names() is EMPTY (every trait
+   transient) the empty list reaches copy_traits, whose `len(traits) == 0` branch means "all traits":
+   the transient traits are copied too.  Pickling (__getstate__) is not affected. *)
+Definition copies_all (op : copyop) (c : cls) : bool :=
+  match op with Pickle => false | _ => forallb (fun p => td_transient (snd p)) c end.
+
 Fixpoint copy_into (op : copyop) (c0 c : cls) (src : vals) (o : Z) (dst : vals) (n : Z) : vals * Z :=
   match c with
   | [] => (dst, n)
   | (k, d) :: r =>
-      if td_transient d then copy_into op c0 r src o dst n          (* not in the state / not copyable *)
+      if td_transient d && negb (copies_all op c0)
+      then copy_into op c0 r src o dst n                             (* not in the state / not copyable *)
       else
         match vget src k with
         | None => copy_into op c0 r src o dst n                      (* default stays default *)
